@@ -201,6 +201,18 @@ def real_jobs(ctx, thorough):
           index="start", temp="seeker", page=4),
         J(name="model-short/D2/res200", codec="model", kind="stored", guise="short", dchunk=2, res=200, len=900, zero=0.4),
     ]
+    # the configuration product {index at start, at end} x {page sizes} on MULTI-level indexes (> 255 chunks): child
+    # pointers of branch nodes are the only place where index offset, page padding and index location meet
+    # (seeded change C13-m2: a two-level index at the end of a page-padded file with unpadded child offsets)
+    for ix, tmp in (("end", "none"), ("start", "buffer"), ("start", "seeker")):
+        for pg in (4, 64, 4096):
+            jobs.append(J(name="model-stored/D1/2-level/%s/%s/page%d" % (ix, tmp, pg), codec="model", kind="stored", dchunk=1,
+                          len=(301 if pg == 64 else rng.choice([517, 700])), zero=0.4, maxwrite=64, index=ix, temp=tmp, page=pg,
+                          # every single (transient) fault point of the underlying writer / temp file, including each
+                          # write of an index node during Close (seeded change C13-m3: the error of a non-last child
+                          # branch node write was overwritten by the next child's nil)
+                          faults=(-1 if pg == 64 else 0)))
+    jobs.append(J(name="zlib/D16/2-level/end/page128", codec="zlib", dchunk=16, len=16 * 300 + 5, zero=0.3, page=128, faults=2))
     if thorough:
         for i in range(8):
             jobs.append(J(name="zlib/C%d/rand%d" % (0, i), codec="zlib", cchunk=rng.choice([64, 150, 200, 500, 2000]),
